@@ -77,7 +77,9 @@ def gen_cfg(rng):
         "all_weighted": rng.random() < 0.3,          # weight extractor also on hll / bloom / res / td
         "zero_weights": rng.random() < 0.4,          # weights 0, 1, 2 instead of 1, 2, 3
         "none_pct": rng.choice([0, 0, 10, 50]),      # share of observations whose extractors return None
-        "item_kind": rng.choice(["str", "str", "int", "tuple"]),
+        # "mixed": every item type in one stream (str, int, float, tuples with strings — composite keys such as
+        # (tenant, key) whose builtin hash is salted per interpreter)
+        "item_kind": rng.choice(["str", "int", "tuple", "mixed", "mixed"]),
         "topk": rng.choice([1, 2, 5, 10, 50]),
         "topk_weighted": rng.random() < 0.4,
         "n_items": rng.choice([1, 12, 40, 150, 1000]) if not heavy else rng.choice([40, 150, 1000, 5000]),
@@ -103,6 +105,13 @@ def gen_cfg(rng):
     }
 
 
+def gen_cfg_wide(rng):
+    """maximum-coverage configuration: every sketch kind, every item type in one stream"""
+    cfg = gen_cfg(rng)
+    cfg.update({"only": None, "item_kind": "mixed", "cms": True})
+    return cfg
+
+
 def build(cfg, seed):
     from happysimulator.components.sketching import QuantileEstimator, SketchCollector, TopKCollector
     from happysimulator.components.sketching.quantile_estimator import LatencyPercentiles
@@ -126,6 +135,16 @@ def build(cfg, seed):
             return idx
         if ikind == "tuple":
             return ("user", idx % 7, idx)
+        if ikind == "mixed":
+            k = idx % 5
+            if k == 0:
+                return idx
+            if k == 1:
+                return ("user", idx % 7, idx)
+            if k == 2:
+                return (f"tenant-{idx % 3}", f"key-{idx}")
+            if k == 3:
+                return idx + 0.5
         return f"user-{idx}"
 
     probe = PROBE if ikind == "str" else [item_of(i) for i in PROBE_IDX] + [item_of(10**6 + i) for i in range(3)]
